@@ -100,7 +100,7 @@ contract(T, 'MtscompEphysReader.iter_chunks', props=['C16'],
                'lemmas': [('mul-monotone', 'implies(bs >= 1 and batch <= nb - 1, bs * batch <= bs * (nb - 1))')]}},
     at_exit=[('tiles-whole-recording', 'cov == cb[len(cb) - 1]')])
 
-contract(T, '_get_chunk_bounds', props=['C16'],
+contract(T, '_get_chunk_bounds', props=['C16'], hints={'replay': ('_get_chunk_bounds', {'sizes': ('array', 'arr_sizes'), 'cs': 'chunk_size'})},
     params={'arr_sizes': 'list[int]', 'chunk_size': 'int'},
     requires=[('cs>0', 'chunk_size > 0'), ('at-least-one-file', 'len(arr_sizes) >= 1'),
               ('sizes-nonnegative', 'all(arr_sizes[k] >= 0 for k in range(len(arr_sizes)))')],
@@ -134,12 +134,12 @@ contract(A, 'data_chunk', variant='other-length', props=['C16'], params={'data':
 
 # get_excerpts, the branches that do not iterate: "(the whole data when it is shorter than requested)", no excerpt, one excerpt
 _GE = {'data': 'arr[int]', 'n_excerpts': 'int', 'excerpt_size': 'int'}
-contract(A, 'get_excerpts', variant='shorter-than-requested', props=['C16'], params=_GE, result='arr[int]',
+contract(A, 'get_excerpts', variant='shorter-than-requested', props=['C16'], hints={'replay': ('get_excerpts', {'n': ('len', 'data'), 'ne': 'n_excerpts', 'es': 'excerpt_size'})}, params=_GE, result='arr[int]',
     requires=[('sizes-non-negative', 'n_excerpts >= 0 and excerpt_size >= 0'), ('data-shorter-than-requested', 'len(data) < n_excerpts * excerpt_size')],
     ensures=[('the-whole-data', 'result is data')])
-contract(A, 'get_excerpts', variant='no-excerpt', props=['C16'], params=_GE, result='arr[int]',
+contract(A, 'get_excerpts', variant='no-excerpt', props=['C16'], hints={'replay': ('get_excerpts', {'n': ('len', 'data'), 'ne': 'n_excerpts', 'es': 'excerpt_size'})}, params=_GE, result='arr[int]',
     requires=[('size-non-negative', 'excerpt_size >= 0'), ('none-requested', 'n_excerpts == 0')],
     ensures=[('nothing', 'len(result) == 0')])
-contract(A, 'get_excerpts', variant='one-excerpt', props=['C16'], params=_GE, result='arr[int]',
+contract(A, 'get_excerpts', variant='one-excerpt', props=['C16'], hints={'replay': ('get_excerpts', {'n': ('len', 'data'), 'ne': 'n_excerpts', 'es': 'excerpt_size'})}, params=_GE, result='arr[int]',
     requires=[('size-non-negative', 'excerpt_size >= 0'), ('one-requested', 'n_excerpts == 1'), ('data-long-enough', 'len(data) >= excerpt_size')],
     ensures=[('the-leading-excerpt', 'len(result) == excerpt_size and all(result[k] == data[k] for k in range(excerpt_size))')])
